@@ -68,6 +68,15 @@ pub fn compare_strip(
 ) -> Result<bool, Fail> {
     let a = sv::pp(src, path, defs, incs, false, false);
     let b = sv::pp(src, path, defs, incs, false, true);
+    // directive-free text with a K1 site: both outputs must be exactly the predictions of listed finding K1
+    if textgen::is_directive_free(src) && textgen::has_k1_site(src) && ctx.findings.is_known("C18", "K1") {
+        if let (Ok((ta, _)), Ok((tb, _))) = (&a, &b) {
+            if textgen::rc1_predict(src).as_deref() == Some(ta.text()) && textgen::rc1_predict_strip(src).as_deref() == Some(tb.text()) {
+                st.known("K1");
+                return Ok(true);
+            }
+        }
+    }
     match (a, b) {
         (Ok((ta, da)), Ok((tb, db))) => {
             let ka = lexer::code_tokens(ta.text());
@@ -153,7 +162,16 @@ impl Prop for C18 {
         match campaign {
             "text" => {
                 let k1 = t.chance(1, 5);
-                let (text, _) = textgen::well_formed(t, k1);
+                let (mut text, _) = textgen::well_formed(t, k1);
+                // sometimes the text ends without a final newline (a one-line comment closed by the end of the text)
+                if t.chance(1, 4) {
+                    if t.flip() {
+                        text.push_str("// last");
+                    }
+                    while text.ends_with('\n') || text.ends_with('\r') {
+                        text.pop();
+                    }
+                }
                 let d = || json!({"source": text});
                 compare_strip(ctx, &text, Path::new("t.sv"), &Defs::new(), &[], st, &d)?;
                 if text.contains("/*") || text.contains("//") {
@@ -175,6 +193,13 @@ impl Prop for C18 {
                             _ => text.push_str(t.pick_str(&[" ", "\n", " /* c */ ", "\t// z\n"])),
                         }
                     }
+                }
+                // directives glued to the tokens around them, comments in macro actuals, comment at the end of the text
+                match t.below(6) {
+                    0 => text = format!("`define ID(x) x\n{}`ifdef ID\n{}`endif\n{}", t.pick_str(&["a", "b1 ", "q/**/"]), t.pick_str(&["c", "d ", "e//z\n"]), t.pick_str(&["f", " g", "\nh"])),
+                    1 => text = format!("`define ID(x) x\n{}`ID({}){}", t.pick_str(&["a", "a ", "a/**/"]), t.pick_str(&["1 /* one */", "2 /* two */ ", "3"]), t.pick_str(&["b", " b", ";"])),
+                    2 => text.push_str(t.pick_str(&["// end", " // end", "/* end */", "//"])),
+                    _ => {}
                 }
                 let d = || json!({"source": text});
                 compare_strip(ctx, &text, Path::new("t.sv"), &Defs::new(), &[], st, &d)?;
